@@ -43,6 +43,20 @@ COVER_FILES = ["instances/preflibinstance/categorical.py", "instances/preflibins
 CHUNK = 25
 
 WORK = os.path.join(oracle.VERIF, ".work")
+_MAIN_PID = os.getpid()
+
+
+def _cleanup():
+    """scratch directories of workers that were killed in the middle of a case (watchdog, coverage time limit)"""
+    if os.getpid() != _MAIN_PID:
+        return
+    import glob
+    for d in glob.glob(os.path.join(WORK, "c08_%d_*" % _MAIN_PID)):
+        shutil.rmtree(d, ignore_errors=True)
+
+
+import atexit  # noqa: E402
+atexit.register(_cleanup)
 PATTERN = r"{[\d,]+?}|[\d,]+|{}"
 FIELDS = ["file_name", "title", "description", "data_type", "modification_type", "relates_to", "related_files",
           "publication_date", "modification_date"]
@@ -323,7 +337,7 @@ def impl(c):
     if op == "c08.tokenize":
         return [T(g) for g in re.findall(PATTERN, proto.untext(pl))]
     os.makedirs(WORK, exist_ok=True)
-    d = tempfile.mkdtemp(prefix="c08_", dir=WORK)
+    d = tempfile.mkdtemp(prefix="c08_%d_" % (_MAIN_PID if os.getpid() != _MAIN_PID else os.getpid()), dir=WORK)
     try:
         if op == "c08.parse":
             ac, ho, mode, content_ = pl
